@@ -7,7 +7,10 @@
 class CartesianR2_Sonnendrucker_CzarnyGeometry : public SourceTerm
 {
 public:
-    CartesianR2_Sonnendrucker_CzarnyGeometry() = default;
+    CartesianR2_Sonnendrucker_CzarnyGeometry()
+    {
+        initializeGeometry();
+    }
     explicit CartesianR2_Sonnendrucker_CzarnyGeometry(const double& Rmax, const double& inverse_aspect_ratio_epsilon,
                                                       const double& ellipticity_e);
     virtual ~CartesianR2_Sonnendrucker_CzarnyGeometry() = default;
